@@ -163,6 +163,23 @@ BEHAVIOURS: List[Tuple[str, str]] = [
     ("raise-text:nul-and-controls", "raises"),
     ("raise-text:str-itself-raises", "raises-badstr"),
     ("yield-then-raise-text:empty", "raises"),
+    # exceptions that CARRY a `code` attribute (protocol errors, HTTP errors, application errors): a failing handler is
+    # answered -32603 whatever the exception calls its own code
+    ("raise-with-code:int:-32601", "raises"),
+    ("raise-with-code:int:-32602", "raises"),
+    ("raise-with-code:int:-32600", "raises"),
+    ("raise-with-code:int:404", "raises"),
+    ("raise-with-code:int:0", "raises"),
+    ("raise-with-code:str", "raises"),
+    ("raise-with-code:digit-str", "raises"),
+    ("raise-with-code:none", "raises"),
+    ("raise-with-code:float", "raises"),
+    ("raise-with-code:bool", "raises"),
+    ("raise-with-code:list", "raises"),
+    ("raise-with-code:library-NonRetryableError:-32601", "raises"),
+    ("raise-with-code:library-RetryableError", "raises"),
+    ("raise-with-code:urllib-HTTPError:404", "raises"),
+    ("raise-with-code:property-that-raises", "raises"),
 ]
 # methods whose dispatch reaches no scripted handler are run with these two behaviours only: a behaviour can only show
 # once its handler is reached (the harness fails if a scripted handler is reached there after all)
@@ -187,6 +204,18 @@ class _Opaque:
 
 class _HandlerFailure(Exception):
     pass
+
+
+class _Coded(Exception):
+    def __init__(self, text, code):
+        super().__init__(text)
+        self.code = code
+
+
+class _CodeRaises(Exception):
+    @property
+    def code(self):
+        raise RuntimeError("no code")
 
 
 class _BadStr(Exception):
@@ -216,6 +245,26 @@ async def _behave(b: int, key: str = ""):
         return {"k": _Opaque()}
     if name == "raise-exception":
         raise Exception("boom")
+    if name.startswith("raise-with-code:"):
+        what = name.split(":", 1)[1]
+        if what.startswith("int:"):
+            raise _Coded("coded failure", int(what[4:]))
+        if what.startswith("library-NonRetryableError"):
+            from chuk_mcp.protocol.types.errors import NonRetryableError
+
+            raise NonRetryableError("method not found downstream", -32601)
+        if what == "library-RetryableError":
+            from chuk_mcp.protocol.types.errors import RetryableError
+
+            raise RetryableError("try again", -32000)
+        if what.startswith("urllib-HTTPError"):
+            import urllib.error
+
+            raise urllib.error.HTTPError("http://x.test/", 404, "Not Found", None, None)
+        if what == "property-that-raises":
+            raise _CodeRaises("coded failure")
+        raise _Coded("coded failure", {"str": "token_expired", "digit-str": "-32601", "none": None, "float": -32603.5,
+                                       "bool": True, "list": [-32603]}[what])
     if "raise-text:" in name:
         what = name.split("raise-text:")[1]
         if what.startswith("empty"):
@@ -433,6 +482,8 @@ def run_one(ctl: explorer.Ctl, cfg: Dict[str, Any]) -> Dict[str, Any]:
         return run_session_dispatch(ctl, cfg)
     if cfg.get("part") == "long-text":
         return run_long_text(ctl, cfg)
+    if cfg.get("part") == "registration-form":
+        return run_registration_form(ctl, cfg)
     mi, ii = cfg["m"], cfg["i"]
     m = _methods()[mi]
     path, mkind = method_kind(m)
@@ -1477,6 +1528,129 @@ def long_text_configs() -> List[Dict[str, Any]]:
             for t in LONG_TARGETS]
 
 
+# ---------------------------------------------------------------------------
+# the FORM in which a register_method handler is registered: anything that returns an awaitable when called
+# ---------------------------------------------------------------------------
+REG_FORMS = ["coroutine-function", "object-with-async-__call__", "async-def-behind-a-plain-def-decorator", "lambda-forwarding",
+             "functools.partial-of-an-async-function", "bound-async-method", "functools.partial-of-a-bound-async-method",
+             "AsyncMock-with-side_effect", "staticmethod-taken-from-the-class"]
+REG_BEHAVIOURS = ["return-str", "return-dict", "raise-exception", "raise-text:empty:AssertionError", "yield-then-return",
+                  "yield-then-raise", "nonsense-return-None", "raise-KeyError"]
+
+
+def run_registration_form(ctl: explorer.Ctl, cfg: Dict[str, Any]) -> Dict[str, Any]:
+    import functools
+    from unittest import mock
+
+    from chuk_mcp.protocol.messages.json_rpc_message import parse_message
+    from chuk_mcp.server.server import MCPServer
+
+    form = REG_FORMS[cfg["form"]]
+    bnames = [b[0] for b in BEHAVIOURS]
+    b = bnames.index(REG_BEHAVIOURS[cfg["beh"]])
+    kind = BEHAVIOURS[b][1]
+    viol: List[dict] = []
+    toks: List[str] = []
+
+    def bad(cls, msg, **extra):
+        viol.append({"sig": {"class": cls, "registered_as": form, "handler": kind, **extra},
+                     "msg": f"register_method handler registered as {form}, behaviour {BEHAVIOURS[b][0]}: {msg}"})
+
+    async def main():
+        for rid in (0, "a", None):
+            srv = MCPServer("vf-c08-forms", "0.0.1")
+            ran = {"n": 0}
+
+            async def body(message, session_id, tag="x"):
+                ran["n"] += 1
+                value = await _behave(b, "custom/method")
+                if kind == "nonsense":
+                    return value
+                if getattr(message, "id", None) is None:
+                    return None, None
+                return srv.protocol_handler.create_response(message.id, {"value": repr(value), "by": tag}), None
+
+            class Callable_:
+                async def __call__(self, message, session_id):
+                    return await body(message, session_id)
+
+                async def method(self, message, session_id):
+                    return await body(message, session_id)
+
+                @staticmethod
+                async def static(message, session_id):
+                    return await body(message, session_id)
+
+            def plain_decorator(fn):
+                @functools.wraps(fn)
+                def wrapper(*a, **kw):          # a plain def: returns the coroutine of the wrapped async def
+                    return fn(*a, **kw)
+                return wrapper
+
+            obj = Callable_()
+            handler = {
+                "coroutine-function": body,
+                "object-with-async-__call__": obj,
+                "async-def-behind-a-plain-def-decorator": plain_decorator(body),
+                "lambda-forwarding": (lambda message, session_id: body(message, session_id)),
+                "functools.partial-of-an-async-function": functools.partial(body, tag="partial"),
+                "bound-async-method": obj.method,
+                "functools.partial-of-a-bound-async-method": functools.partial(obj.method),
+                "AsyncMock-with-side_effect": mock.AsyncMock(side_effect=body),
+                "staticmethod-taken-from-the-class": Callable_.static,
+            }[form]
+            srv.protocol_handler.register_method("custom/method", handler)
+            wire: Dict[str, Any] = {"jsonrpc": "2.0", "method": "custom/method", "params": {"k": 1}}
+            if rid is not None:
+                wire["id"] = rid
+            who = "notification" if rid is None else "request"
+            try:
+                ret = await srv.protocol_handler.handle_message(parse_message(json.loads(json.dumps(wire))))
+            except Exception as e:  # noqa: BLE001
+                toks.append("raised")
+                bad(f"{who}-raised", f"{wire}: handle_message raised {type(e).__name__}: {str(e)[:100]}", detail=type(e).__name__)
+                continue
+            if ran["n"] != 1:
+                bad("registered-handler-did-not-run", f"{wire}: the handler body ran {ran['n']} times", message=who)
+            if not (isinstance(ret, tuple) and len(ret) == 2):
+                bad("bad-return-shape", f"{wire}: {ret!r}")
+                continue
+            if rid is None:
+                if ret[0] is not None:
+                    bad("notification-got-response", f"{wire}: {_dump(ret[0])!r}")
+                toks.append("none")
+                continue
+            if ret[0] is None:
+                bad("request-got-no-response", f"{wire}: no response")
+                continue
+            d = _dump(ret[0])
+            if classify(d)[0] not in ("result", "error") or not strict_eq(d.get("id"), rid):
+                bad("invalid-response-envelope", f"{wire}: {d!r}")
+                continue
+            tok = _token(d)
+            toks.append(tok)
+            allowed = ANY_RESPONSE if kind == "nonsense" else _by_behaviour(b)
+            if allowed is not ANY_RESPONSE and tok not in allowed:
+                bad("wrong-outcome", f"{wire}: expected {sorted(allowed)}, got {tok}: {d!r}", got=tok)
+
+    loop = new_loop(horizon=5)
+    status, val = loop.run_main(main())
+    errors = loop.collect_errors()
+    loop.abandon()
+    if status != "ok":
+        raise core.HarnessError(f"registration form {cfg} did not complete: {status} {val!r}")
+    if errors:
+        raise core.HarnessError(f"registration form {cfg}: event loop reported {errors[:2]}")
+    firsts: Dict[str, dict] = {}
+    for v in viol:
+        firsts.setdefault(json.dumps(v["sig"], sort_keys=True), v)
+    return {"outcome": "/".join(toks), "violations": list(firsts.values()), "counters": {"registration-form-dispatches": 3}}
+
+
+def registration_form_configs() -> List[Dict[str, Any]]:
+    return [{"part": "registration-form", "form": f, "beh": k} for f in range(len(REG_FORMS)) for k in range(len(REG_BEHAVIOURS))]
+
+
 def overlap_configs(tier: str) -> List[Dict[str, Any]]:
     out = []
     # two calls: every ordered pair of messages with distinct ids (two notifications allowed) x targets x behaviours
@@ -1567,6 +1741,12 @@ def run(tier: str, only=None) -> core.Result:
     sd = res.parts["dispatch-with-a-session-of-any-clientInfo-shape"]["counters"]
     res.coverage["session_dispatch_judged"] = sd.get("session-dispatches-judged", 0)
     res.coverage["long_text_cases"] = lt.get("cases", 0)
+    rfc = registration_form_configs()
+    outrf = explorer.explore(RUN, rfc)
+    sched.absorb(res, "register_method-handler-forms", RUN, outrf, rfc)
+    sched.debug_pass(res, "register_method-handler-forms", RUN, rfc, every=2)
+    res.coverage["registration_form_dispatches"] = res.parts["register_method-handler-forms"]["counters"].get(
+        "registration-form-dispatches", 0)
     sv = res.parts["several-servers-alive"]
     res.coverage["server_sets"] = sv["executions"]
     res.coverage["server_set_probes_judged"] = sv["counters"].get("probes-judged", 0)
@@ -1630,7 +1810,10 @@ def run(tier: str, only=None) -> core.Result:
         "unknown, resource raises, custom returns / raises / raises with empty text, unknown method, ping, tools/list, a second "
         "initialize) as request and notification dispatched WITH the session id.  Long texts: unknown method / tool / resource names "
         "and exception texts of tool, resource and custom handlers whose error text reaches 2^6..2^16 bytes -28..+4, built from 2-, "
-        "3- and 4-byte characters after 0..3 ASCII bytes (every alignment), as request and notification.  Debug-logging passes: a slice of the "
+        "3- and 4-byte characters after 0..3 ASCII bytes (every alignment), as request and notification.  Registration forms: the register_method handler registered as a coroutine function, an object with "
+        "async __call__, an async def behind a plain-def decorator, a forwarding lambda, functools.partial of an async function / of a "
+        "bound async method, a bound async method, an AsyncMock, a staticmethod x 8 behaviours x request ids 0 / 'a' / notification: "
+        "the body runs exactly once and the usual outcome follows.  Debug-logging passes: a slice of the "
         "block grid (every method x id absent/int/str x 8 params shapes x up to 4 behaviours), every 7th overlap configuration "
         "and every 5th server set re-run with the root logger at DEBUG (log-statement arguments are evaluated)"
     )
@@ -1649,6 +1832,8 @@ def run(tier: str, only=None) -> core.Result:
         "response'), BaseException, exceptions whose __str__ fails",
         "the nonsense return values, when returned by a tool / resource handler, are ordinary arbitrary results: result or -32603",
         "the session_id argument of handle_message is None throughout (sessions are C19's subject)",
+        "a register_method handler is any callable that returns an awaitable of the (response, session) pair when called with "
+        "(message, session_id); plain synchronous functions are not in the alphabet",
         "two server objects built separately are independent: what is registered on one is not registered on another",
         "overlap part: two in-flight requests never share an id; a handler released before it is started (i.e. one that does "
         "not suspend) is the block part's subject; virtual loop schedules ready callbacks FIFO like stock asyncio",
